@@ -690,6 +690,18 @@ func (e *c08Env) step(stPack, icsPack func(string, ...any) ([]byte, error)) {
 			e.r.Count("slashing_events", 1)
 			e.log("validator %d double-signed", vi)
 		}
+	case k < 94: // the funder merges another grant through MsgConvertIntoVestingAccount with the stake option: the vested part is delegated at once
+		total := map[string]sdkmath.Int{vn.Denom: sdkmath.NewIntWithDecimal(int64(10+rng.Intn(200)), 18)}
+		lock := c08Periods(rng, []string{vn.Denom}, total, 3, 1)
+		vest := c08Periods(rng, []string{vn.Denom}, total, 3, 1)
+		st := n.Time.Unix() - int64(rng.Intn(400)) - 1
+		res := e.cosmos(e.funder, sdk.NewCoins(), nil, vestingtypes.NewMsgConvertIntoVestingAccount(e.funder.Addr, h.acc.Addr, time.Unix(st, 0).UTC(), lock, vest, true, true, val.ValAddr))
+		if res.Code == 0 {
+			h.dRef = n.App.StakingKeeper.GetDelegatorBonded(n.Ctx(), h.acc.Addr).Add(n.App.StakingKeeper.GetDelegatorUnbonding(n.Ctx(), h.acc.Addr))
+			e.r.Count("grants_merged_with_stake", 1)
+		}
+		e.log("funder merges a grant with the stake option into %s start=%d lockup=%s vesting=%s ok=%v", h.name, st, periodsStr(lock), periodsStr(vest), res.Code == 0)
+		e.judge("merge-grant-with-stake", "delegation", h, before, res.Code == 0, "none")
 	case k < 96: // the funder merges another grant
 		total := map[string]sdkmath.Int{vn.Denom: sdkmath.NewIntWithDecimal(int64(10+rng.Intn(200)), 18)}
 		lock := c08Periods(rng, []string{vn.Denom}, total, 3, 1)
